@@ -124,6 +124,8 @@ int main(int argc, char **argv)
     int pad = atoi(arg(argc, argv, "pad", "0")), early = atoi(arg(argc, argv, "early", "0")), suite2 = (int) strtol(arg(argc, argv, "suite2", "0"), NULL, 0);
     const char *oname2 = arg(argc, argv, "oname2", NULL);
     int maxfrag = atoi(arg(argc, argv, "maxfrag", "0"));
+    int pskke = atoi(arg(argc, argv, "pskke", "0"));     /* resumption by PSK alone (psk_ke): the OpenSSL server allows it and, on the
+                                                            second connection, supports no group the client has a share for */
     int earlyok = -1, oearly = -1;
     char cert[256], pkey[256], ca[256];
     sslKeys_t *keys = NULL;
@@ -166,6 +168,7 @@ int main(int argc, char **argv)
         SSL_CTX_set_min_proto_version(ctx, v); SSL_CTX_set_max_proto_version(ctx, v);
     }
     if (t13) SSL_CTX_set_ciphersuites(ctx, oname); else SSL_CTX_set_cipher_list(ctx, oname);
+    if (pskke) SSL_CTX_set_options(ctx, SSL_OP_ALLOW_NO_DHE_KEX);
     if (pad > 0) SSL_CTX_set_block_padding(ctx, (size_t) pad);
     /* maxfrag=512|1024|2048|4096: RFC 6066 max_fragment_length, asked for by whichever side is the client */
     if (maxfrag > 0 && !mxclient) SSL_CTX_set_tlsext_max_fragment_length(ctx, maxfrag == 512 ? TLSEXT_max_fragment_length_512 : maxfrag == 1024 ? TLSEXT_max_fragment_length_1024 : maxfrag == 2048 ? TLSEXT_max_fragment_length_2048 : TLSEXT_max_fragment_length_4096);
@@ -219,6 +222,7 @@ int main(int argc, char **argv)
         SSL_set_bio(p.o, p.oin, p.oout);
         if (mxclient) SSL_set_accept_state(p.o); else { SSL_set_connect_state(p.o); if (osess) SSL_set_session(p.o, osess); }
         if (psk) { /* PSK suites need callbacks on the OpenSSL side; not wired: reported as not applicable */ }
+        if (conn == 1 && pskke && mxclient) SSL_set1_groups_list(p.o, "X448");
         if (conn == 1 && oname2) { if (t13) SSL_set_ciphersuites(p.o, oname2); else SSL_set_cipher_list(p.o, oname2); }
         if (conn == 1 && early > 0 && !mxclient)
         {
@@ -284,10 +288,10 @@ int main(int argc, char **argv)
     }
     printf("{\"tag\":\"%s\",\"role\":\"%s\",\"ver\":\"%s\",\"suite\":%d,\"oname\":\"%s\",\"key\":\"%s\",\"cauth\":%d,\"resume\":\"%s\",\"group\":\"%s\",\"nconn\":%d,\"hrr\":%d,"
            "\"done\":[%d,%d],\"odone\":[%d,%d],\"mres\":[%d,%d],\"ores\":[%d,%d],\"dataok\":[%d,%d],\"odataok\":[%d,%d],\"mxsuite\":[%d,%d],\"mver\":[\"%s\",\"%s\"],"
-           "\"over\":[\"%s\",\"%s\"],\"ocipher\":[\"%s\",\"%s\"],\"ogroup\":[\"%s\",\"%s\"],\"mgrp\":[%d,%d],\"mxerr\":[%d,%d],\"oerr\":[%d,%d],\"pad\":%d,\"early\":%d,\"earlyok\":%d,\"oearly\":%d,\"suite2\":%d,\"oname2\":\"%s\",\"maxfrag\":%d}\n",
+           "\"over\":[\"%s\",\"%s\"],\"ocipher\":[\"%s\",\"%s\"],\"ogroup\":[\"%s\",\"%s\"],\"mgrp\":[%d,%d],\"mxerr\":[%d,%d],\"oerr\":[%d,%d],\"pad\":%d,\"early\":%d,\"earlyok\":%d,\"oearly\":%d,\"suite2\":%d,\"oname2\":\"%s\",\"maxfrag\":%d,\"pskke\":%d}\n",
            tag, role, ver, suite, oname, key, cauth, resume, group ? group : "-", nconn, atoi(arg(argc, argv, "hrr", "0")), done[0], done[1], odone[0], odone[1], mres[0], mres[1], ores[0], ores[1],
            dataok[0], dataok[1], odataok[0], odataok[1], mxsuite[0], mxsuite[1], mver[0], mver[1], over[0], over[1], ocipher[0], ocipher[1], ogroup[0], ogroup[1], mgrp[0], mgrp[1],
-           mxerr[0], mxerr[1], oerr[0], oerr[1], pad, early, earlyok, oearly, suite2, oname2 ? oname2 : "-", maxfrag);
+           mxerr[0], mxerr[1], oerr[0], oerr[1], pad, early, earlyok, oearly, suite2, oname2 ? oname2 : "-", maxfrag, pskke);
     if (osess) SSL_SESSION_free(osess);
     SSL_CTX_free(ctx);
     if (sid) matrixSslDeleteSessionId(sid);
